@@ -93,70 +93,70 @@ func vApplyNumeric[T comparable](col Column, nc *chunks[T], chs chunks[T], chunk
 	vAssert("absent-zero-kept", vBit(fill, o) || vSame(data[o], zero))
 }
 
-//@ lemma props=C01,C09,C11 mode=paths
+//@ lemma props=C01,C09,C11,C06,C08 mode=paths
 func vLemmaApplyInt(chs chunks[int], chunk commit.Chunk, buf []byte, last int32, cur commit.Chunk, s int, sel uint8, idx uint32, v int, merge func(a, b int) int) {
 	col := makeInts(WithMerge(merge)).(*numericColumn[int])
 	vApplyNumeric[int](col, &col.chunks, chs, chunk, buf, last, cur, s, sel, idx, v, 0, merge, col.write,
 		func(b *commit.Buffer, op commit.OpType, idx uint32, v int) { b.PutInt(op, idx, v) }, func(r *commit.Reader) int { return r.Int() })
 }
 
-//@ lemma props=C01,C09,C11 mode=paths
+//@ lemma props=C01,C09,C11,C06,C08 mode=paths
 func vLemmaApplyInt16(chs chunks[int16], chunk commit.Chunk, buf []byte, last int32, cur commit.Chunk, s int, sel uint8, idx uint32, v int16, merge func(a, b int16) int16) {
 	col := makeInt16s(WithMerge(merge)).(*numericColumn[int16])
 	vApplyNumeric[int16](col, &col.chunks, chs, chunk, buf, last, cur, s, sel, idx, v, 0, merge, col.write,
 		func(b *commit.Buffer, op commit.OpType, idx uint32, v int16) { b.PutInt16(op, idx, v) }, func(r *commit.Reader) int16 { return r.Int16() })
 }
 
-//@ lemma props=C01,C09,C11 mode=paths
+//@ lemma props=C01,C09,C11,C06,C08 mode=paths
 func vLemmaApplyInt32(chs chunks[int32], chunk commit.Chunk, buf []byte, last int32, cur commit.Chunk, s int, sel uint8, idx uint32, v int32, merge func(a, b int32) int32) {
 	col := makeInt32s(WithMerge(merge)).(*numericColumn[int32])
 	vApplyNumeric[int32](col, &col.chunks, chs, chunk, buf, last, cur, s, sel, idx, v, 0, merge, col.write,
 		func(b *commit.Buffer, op commit.OpType, idx uint32, v int32) { b.PutInt32(op, idx, v) }, func(r *commit.Reader) int32 { return r.Int32() })
 }
 
-//@ lemma props=C01,C09,C11,C17 mode=paths
+//@ lemma props=C01,C09,C11,C17,C06,C08 mode=paths
 func vLemmaApplyInt64(chs chunks[int64], chunk commit.Chunk, buf []byte, last int32, cur commit.Chunk, s int, sel uint8, idx uint32, v int64, merge func(a, b int64) int64) {
 	col := makeInt64s(WithMerge(merge)).(*numericColumn[int64])
 	vApplyNumeric[int64](col, &col.chunks, chs, chunk, buf, last, cur, s, sel, idx, v, 0, merge, col.write,
 		func(b *commit.Buffer, op commit.OpType, idx uint32, v int64) { b.PutInt64(op, idx, v) }, func(r *commit.Reader) int64 { return r.Int64() })
 }
 
-//@ lemma props=C01,C09,C11 mode=paths
+//@ lemma props=C01,C09,C11,C06,C08 mode=paths
 func vLemmaApplyUint(chs chunks[uint], chunk commit.Chunk, buf []byte, last int32, cur commit.Chunk, s int, sel uint8, idx uint32, v uint, merge func(a, b uint) uint) {
 	col := makeUints(WithMerge(merge)).(*numericColumn[uint])
 	vApplyNumeric[uint](col, &col.chunks, chs, chunk, buf, last, cur, s, sel, idx, v, 0, merge, col.write,
 		func(b *commit.Buffer, op commit.OpType, idx uint32, v uint) { b.PutUint(op, idx, v) }, func(r *commit.Reader) uint { return r.Uint() })
 }
 
-//@ lemma props=C01,C09,C11 mode=paths
+//@ lemma props=C01,C09,C11,C06,C08 mode=paths
 func vLemmaApplyUint16(chs chunks[uint16], chunk commit.Chunk, buf []byte, last int32, cur commit.Chunk, s int, sel uint8, idx uint32, v uint16, merge func(a, b uint16) uint16) {
 	col := makeUint16s(WithMerge(merge)).(*numericColumn[uint16])
 	vApplyNumeric[uint16](col, &col.chunks, chs, chunk, buf, last, cur, s, sel, idx, v, 0, merge, col.write,
 		func(b *commit.Buffer, op commit.OpType, idx uint32, v uint16) { b.PutUint16(op, idx, v) }, func(r *commit.Reader) uint16 { return r.Uint16() })
 }
 
-//@ lemma props=C01,C09,C11 mode=paths
+//@ lemma props=C01,C09,C11,C06,C08 mode=paths
 func vLemmaApplyUint32(chs chunks[uint32], chunk commit.Chunk, buf []byte, last int32, cur commit.Chunk, s int, sel uint8, idx uint32, v uint32, merge func(a, b uint32) uint32) {
 	col := makeUint32s(WithMerge(merge)).(*numericColumn[uint32])
 	vApplyNumeric[uint32](col, &col.chunks, chs, chunk, buf, last, cur, s, sel, idx, v, 0, merge, col.write,
 		func(b *commit.Buffer, op commit.OpType, idx uint32, v uint32) { b.PutUint32(op, idx, v) }, func(r *commit.Reader) uint32 { return r.Uint32() })
 }
 
-//@ lemma props=C01,C09,C11 mode=paths
+//@ lemma props=C01,C09,C11,C06,C08 mode=paths
 func vLemmaApplyUint64(chs chunks[uint64], chunk commit.Chunk, buf []byte, last int32, cur commit.Chunk, s int, sel uint8, idx uint32, v uint64, merge func(a, b uint64) uint64) {
 	col := makeUint64s(WithMerge(merge)).(*numericColumn[uint64])
 	vApplyNumeric[uint64](col, &col.chunks, chs, chunk, buf, last, cur, s, sel, idx, v, 0, merge, col.write,
 		func(b *commit.Buffer, op commit.OpType, idx uint32, v uint64) { b.PutUint64(op, idx, v) }, func(r *commit.Reader) uint64 { return r.Uint64() })
 }
 
-//@ lemma props=C01,C09,C11 mode=paths
+//@ lemma props=C01,C09,C11,C06,C08 mode=paths
 func vLemmaApplyFloat32(chs chunks[float32], chunk commit.Chunk, buf []byte, last int32, cur commit.Chunk, s int, sel uint8, idx uint32, v float32, merge func(a, b float32) float32) {
 	col := makeFloat32s(WithMerge(merge)).(*numericColumn[float32])
 	vApplyNumeric[float32](col, &col.chunks, chs, chunk, buf, last, cur, s, sel, idx, v, 0, merge, col.write,
 		func(b *commit.Buffer, op commit.OpType, idx uint32, v float32) { b.PutFloat32(op, idx, v) }, func(r *commit.Reader) float32 { return r.Float32() })
 }
 
-//@ lemma props=C01,C09,C11 mode=paths
+//@ lemma props=C01,C09,C11,C06,C08 mode=paths
 func vLemmaApplyFloat64(chs chunks[float64], chunk commit.Chunk, buf []byte, last int32, cur commit.Chunk, s int, sel uint8, idx uint32, v float64, merge func(a, b float64) float64) {
 	col := makeFloat64s(WithMerge(merge)).(*numericColumn[float64])
 	vApplyNumeric[float64](col, &col.chunks, chs, chunk, buf, last, cur, s, sel, idx, v, 0, merge, col.write,
@@ -280,7 +280,7 @@ func vLemmaApplyTrigger(chunk commit.Chunk, buf []byte, last int32, cur commit.C
 // private copy with the same bytes, a merge stores what the merge function returns for (stored value, delta) and
 // sets the presence bit, a delete clears the bit; other kinds and other cells are untouched.
 //
-//@ lemma props=C01,C09,C11 mode=paths
+//@ lemma props=C01,C09,C11,C06,C08 mode=paths
 func vLemmaApplyString(chs chunks[string], chunk commit.Chunk, buf []byte, last int32, cur commit.Chunk, s int, sel uint8, idx uint32, v0 []byte, n uint16, merge func(a, b string) string) {
 	vAssume(int(chunk) < len(chs) && len(chs[chunk].fill) == chunkSize/64 && len(chs[chunk].data) == chunkSize)
 	vAssume(idx < 1<<31 && commit.ChunkAt(idx) == chunk && last >= 0 && 0 <= s && s <= len(buf) && sel <= 4 && merge != nil && vShortDelta(last, idx, cur, chunk))
@@ -567,7 +567,7 @@ func vLoopFindMarkers(txn *Txn, rangeindex int) {
 // inside the latch of its own block with the id stored for that block (checked inside vLogger.Append), at most one
 // per dirty block, and none when nothing was applied to the block.
 //
-//@ lemma props=C15,C06,C08 mode=paths real=column.(*Txn).commit
+//@ lemma props=C15,C06,C08,C01,C11 mode=paths real=column.(*Txn).commit
 func vLemmaCommitEmits(owner *Collection, updates []*commit.Buffer, dirty []uint64) {
 	vAssume(owner != nil && owner.slock != nil && vNothingHeld() && owner.record == nil)
 	vAssume(vForall(0, len(updates), func(i int) bool { return updates[i] != nil }))
@@ -643,7 +643,17 @@ func vContractAcquire(p *txnPool, owner *Collection) (txn *Txn) {
 }
 
 //@ contract target=column.(*txnPool).release use verify=no
-func vContractRelease(p *txnPool, txn *Txn) { p.release(txn) }
+func vContractRelease(p *txnPool, txn *Txn) {
+	p.release(txn)
+	vReleases++
+	vReleasedEnded = vReleasedEnded && vDidCommit+vDidRollback == 1
+}
+
+// ghost: how often a transaction went back to the pool, and whether each time it had ended (committed or rolled back)
+var (
+	vReleases      int
+	vReleasedEnded bool
+)
 
 //@ contract target=column.(*Txn).rollback use verify=no
 func vContractRollbackGhost(txn *Txn) {
@@ -657,10 +667,11 @@ func vContractCommitGhost(txn *Txn) {
 	vDidCommit++
 }
 
-//@ lemma props=C02
+//@ lemma props=C02,C09,C10,C18
 func vLemmaQuery(c *Collection, errIn error) {
 	vAssume(c != nil && c.txns != nil)
 	vDidCommit, vDidRollback = 0, 0
+	vReleases, vReleasedEnded = 0, true
 	calls := 0
 	err := c.Query(func(txn *Txn) error {
 		vAssert("nothing-decided-before-callback", vDidCommit == 0 && vDidRollback == 0)
@@ -673,6 +684,8 @@ func vLemmaQuery(c *Collection, errIn error) {
 	} else {
 		vAssert("nil-commits", vDidCommit == 1 && vDidRollback == 0 && err == nil)
 	}
+	// (a transaction that is in the pool twice is handed to two goroutines at once: C09, C10, C18)
+	vAssert("transaction-goes-back-to-the-pool-exactly-once-after-it-ended", vReleases == 1 && vReleasedEnded)
 }
 
 // rollback (C02, C15, C18): recounts the live rows under the collection mutex, drops the buffers (reset), emits
@@ -829,7 +842,10 @@ func b2i(b bool) int {
 // ---------------------------------------------------------------------------------------------
 // Primary keys (C12). One operation through the key column: a put stores the key for the row, makes the key resolve
 // to the row's offset and - when the row was keyed differently before - makes the old key stop resolving; a delete
-// clears the cell and removes the row's key from the table; other kinds change nothing.
+// clears the cell and removes the row's key from the table; other kinds change nothing. A key leaves the table only
+// with the row it resolves to (★D26 repaired): the string left in a cell - by a failed insert whose key another row of
+// the same commit took, or by an earlier occupant - may resolve to ANOTHER row, and deleting this one must not touch
+// that. The table is therefore arbitrary here: the cell's string resolves to this row, to another one, or not at all.
 //
 //@ lemma props=C12,C01,C02 mode=paths
 func vLemmaApplyKey(chs chunks[string], chunk commit.Chunk, buf []byte, last int32, cur commit.Chunk, s int, sel uint8, idx uint32, v0 []byte, n uint16, other string) {
@@ -842,10 +858,10 @@ func vLemmaApplyKey(chs chunks[string], chunk commit.Chunk, buf []byte, last int
 	fill, data := chs[chunk].fill, chs[chunk].data
 	o := idx - chunk.Min()
 	hadKey, had := data[o], vBit(fill, o)
-	// table invariant for this row: its current key resolves to it
-	if had {
-		col.seek[hadKey] = idx
+	if vNondet[bool]() {
+		col.seek[hadKey] = vNondet[uint32]()
 	}
+	hadAt, hadIn := col.seek[hadKey]
 	otherAt, otherIn := col.seek[other]
 	oldFill := append([]uint64(nil), fill...)
 	b := commit.VBuffer(buf, last, cur)
@@ -868,15 +884,21 @@ func vLemmaApplyKey(chs chunks[string], chunk commit.Chunk, buf []byte, last int
 		vAssert("put-stores-key", vBit(fill, o) && len(data[o]) == len(v) && vForall(0, len(v), func(i int) bool { return data[o][i] == v[i] }))
 		at, ok := col.OffsetOf(data[o])
 		vAssert("put-key-resolves-to-row", ok && at == idx)
-		if had && hadKey != data[o] {
-			_, still := col.OffsetOf(hadKey)
-			vAssert("put-removes-previous-key", !still)
+		if hadKey != data[o] {
+			now, still := col.OffsetOf(hadKey)
+			if had && hadIn && hadAt == idx {
+				vAssert("put-removes-previous-key", !still)
+			} else {
+				vAssert("put-keeps-a-key-that-resolves-to-another-row", still == hadIn && (!still || now == hadAt))
+			}
 		}
 	case 1:
 		vAssert("delete-clears-cell", !vBit(fill, o))
-		if had {
-			_, still := col.OffsetOf(hadKey)
+		now, still := col.OffsetOf(hadKey)
+		if hadIn && hadAt == idx {
 			vAssert("delete-removes-key", !still)
+		} else {
+			vAssert("delete-keeps-a-key-that-resolves-to-another-row", still == hadIn && (!still || now == hadAt))
 		}
 	default:
 		vAssert("other-op-cell", vBit(fill, o) == vBit(oldFill, o) && vSame(data[o], hadKey))
@@ -1233,6 +1255,7 @@ var vDidSnapshotOK int
 
 //@ contract target=column.(*column).Snapshot use verify=no
 func vContractColumnSnapshotGhost(c *column, chunk commit.Chunk, dst *commit.Buffer) (ok bool) {
+	vRequires(vCol != nil && int(chunk) < len(vCol.commits)) // a block every column has been grown to (commitCapacity, CreateColumn)
 	ok = c.Snapshot(chunk, dst)
 	if ok {
 		vDidSnapshotOK++
@@ -1341,7 +1364,7 @@ func vLemmaRollbackFreesReserved(owner *Collection, inserts []uint32) {
 	vAssert("released", vNothingHeld())
 }
 
-//@ lemma props=C02,C11 real=column.(*Txn).insert use=commit.(*Buffer).PutOperation
+//@ lemma props=C02,C11,C06 real=column.(*Txn).insert use=commit.(*Buffer).PutOperation
 func vLemmaFailedInsertLeavesNoMarker(owner *Collection, inserts []uint32) {
 	vAssume(owner != nil && owner.txns != nil && vNothingHeld() && owner.count < 1<<40 && len(owner.fill) < 1<<24 && len(inserts) < 1<<20)
 	vCol = owner
@@ -1362,11 +1385,16 @@ func vLemmaFailedInsertLeavesNoMarker(owner *Collection, inserts []uint32) {
 // transaction remembers its own). Two CONCURRENT transactions inserting one key are not covered (D16c, documented).
 //
 //@ lemma props=C12
-func vLemmaInsertKeyTwiceInOneTransaction(owner *Collection, key string, upsert bool) {
+func vLemmaInsertKeyTwiceInOneTransaction(owner *Collection, key, before string, upsert, later bool) {
 	vAssume(owner != nil && owner.pk != nil && owner.pk.seek != nil && vNothingHeld())
 	delete(owner.pk.seek, key)
 	txn := &Txn{owner: owner}
 	fn := func(Row) error { return nil }
+	if later { // the key is not the first new key of the transaction
+		vAssume(before != key)
+		delete(owner.pk.seek, before)
+		vAssume(txn.InsertKey(before, fn) == nil)
+	}
 	vDidInsert, vDidQueryAt = 0, 0
 	first := txn.InsertKey(key, fn)
 	vAssume(first == nil) // (a failed insert does not take the key: its row goes away with the transaction)
@@ -1629,7 +1657,11 @@ func vLemmaChunksGrow(chs chunks[int64], idx uint32) {
 
 // ---------------------------------------------------------------------------------------------
 // Collection.chunks (C07, C08): the number of blocks a snapshot writes covers every occupied offset of the fill list
-// (occupied, not counted: deletions in early blocks must not cut off the last blocks), read under the collection mutex.
+// (occupied, not counted: deletions in early blocks must not cut off the last blocks) in the blocks that have ever
+// been committed to, and no block beyond them (★D25 repaired): such a block holds nothing but offsets reserved by
+// transactions in flight, and no column has been grown to it - commitCapacity and CreateColumn grow every column to
+// the committed block count under the mutex, which is what the callers' column.Snapshot needs (its precondition
+// below). Read under the collection mutex.
 
 //@ lemma props=C07,C08,C03,C16
 func vLemmaChunks(owner *Collection) {
@@ -1637,9 +1669,10 @@ func vLemmaChunks(owner *Collection) {
 	vCol = owner
 	n := owner.chunks()
 	idx := vNondet[uint32]() // an arbitrary offset
-	if int(idx>>6) < len(owner.fill) && vBit(owner.fill, idx) {
-		vAssert("covers-every-occupied-offset", int(commit.ChunkAt(idx)) < n)
+	if int(idx>>6) < len(owner.fill) && vBit(owner.fill, idx) && int(commit.ChunkAt(idx)) < len(owner.commits) {
+		vAssert("covers-every-occupied-offset-of-the-committed-blocks", int(commit.ChunkAt(idx)) < n)
 	}
+	vAssert("no-block-that-was-never-committed-to", n <= len(owner.commits))
 	vAssert("no-more-than-the-fill-list-spans", n <= (len(owner.fill)*64+chunkSize-1)/chunkSize)
 	vAssert("released", vNothingHeld())
 }
@@ -1992,7 +2025,7 @@ var vChunksResult int
 //@ contract target=column.(*Collection).chunks optin verify=no
 func vContractChunksGhost(c *Collection) (n int) {
 	n = c.chunks()
-	vEnsures("block-count-range", 0 <= n && n <= 1<<17)
+	vEnsures("block-count-range", 0 <= n && n <= 1<<17 && n <= len(c.commits)) // (vLemmaChunks#no-block-that-was-never-committed-to)
 	vChunksResult = n
 	return
 }
@@ -2181,7 +2214,8 @@ func vBackfillStep(chunk commit.Chunk, watched *column, snaps, applies int) {
 
 //@ loop target=column.(*Collection).CreateIndex index=0 props=C03
 func vLoopCreateIndexBackfill(chunk commit.Chunk, chunks int, column *column) {
-	vInvariant(0 <= int(chunk) && (int(chunk) <= chunks || chunks < 0) && chunks <= 1<<17 && vSnapshotCalls == int(chunk) && vColApplyCalls <= vSnapshotCalls && vNothingHeld())
+	vInvariant(0 <= int(chunk) && (int(chunk) <= chunks || chunks < 0) && chunks <= 1<<17 && vSnapshotCalls == int(chunk) && vColApplyCalls <= vSnapshotCalls && vNothingHeld() &&
+		vCol != nil && chunks <= len(vCol.commits))
 	snaps, applies, block := vSnapshotCalls, vColApplyCalls, vKeep(chunk) // (after vBody the parameters carry the next iteration's values)
 	vBody()
 	vBackfillStep(block, column, snaps, applies)
@@ -2189,7 +2223,8 @@ func vLoopCreateIndexBackfill(chunk commit.Chunk, chunks int, column *column) {
 
 //@ loop target=column.(*Collection).CreateSortIndex index=0 props=C16
 func vLoopCreateSortIndexBackfill(chunk commit.Chunk, chunks int, column *column) {
-	vInvariant(0 <= int(chunk) && (int(chunk) <= chunks || chunks < 0) && chunks <= 1<<17 && vSnapshotCalls == int(chunk) && vColApplyCalls <= vSnapshotCalls && vNothingHeld())
+	vInvariant(0 <= int(chunk) && (int(chunk) <= chunks || chunks < 0) && chunks <= 1<<17 && vSnapshotCalls == int(chunk) && vColApplyCalls <= vSnapshotCalls && vNothingHeld() &&
+		vCol != nil && chunks <= len(vCol.commits))
 	snaps, applies, block := vSnapshotCalls, vColApplyCalls, vKeep(chunk) // (after vBody the parameters carry the next iteration's values)
 	vBody()
 	vBackfillStep(block, column, snaps, applies)
@@ -2810,6 +2845,8 @@ var (
 	vImplGrows   int
 	vImplGrowMax uint32
 	vImplGrowAll bool // ghost: every Grow of the implementation so far happened before the registration
+	vImplGrowMu  uint32 // ghost: the largest offset a Grow made under the collection mutex covers
+	vImplGrowsMu int
 )
 
 //@ model column.Column.Grow
@@ -2819,16 +2856,22 @@ func vModelColumnImplGrow(c Column, idx uint32) {
 		vImplGrowMax = idx
 	}
 	vImplGrowAll = vImplGrowAll && vStoreCalls == 0
+	if vColW {
+		vImplGrowsMu++
+		if idx > vImplGrowMu {
+			vImplGrowMu = idx
+		}
+	}
 }
 
-//@ lemma props=C01
+//@ lemma props=C01,C18
 func vLemmaCreateColumn(c *Collection, name string, column Column) {
 	vAssume(c != nil && vNothingHeld() && len(c.commits) < 1<<16 && c.opts.Capacity >= 0 && c.opts.Capacity < 1<<30 && c.count < 1<<31)
 	_, isKey := column.(*columnKey)
 	vAssume(!isKey) // (key columns: createColumnKey, not under contract)
 	vCol = c
 	vLoadSortIndex, vLoadForce = false, false
-	vLoadCalls, vStoreCalls, vImplGrows, vImplGrowMax, vImplGrowAll = 0, 0, 0, 0, true
+	vLoadCalls, vStoreCalls, vImplGrows, vImplGrowMax, vImplGrowAll, vImplGrowMu, vImplGrowsMu = 0, 0, 0, 0, true, 0, 0
 	err := c.CreateColumn(name, column)
 	if vLoadResult != nil {
 		vAssert("registered-name-refused-nothing-changes", err != nil && vStoreCalls == 0 && vImplGrows == 0)
@@ -2838,6 +2881,9 @@ func vLemmaCreateColumn(c *Collection, name string, column Column) {
 		vAssert("grown-before-it-is-registered", vImplGrowAll)
 		if len(c.commits) > 0 {
 			vAssert("covers-every-block-ever-committed", vImplGrowMax >= commit.Chunk(len(c.commits)-1).Max())
+			// the block count is read, and the column grown to it, inside the critical section that registers the column:
+			// a commit that adds a block (commitCapacity, same mutex) either is seen here or grows the registered column
+			vAssert("grown-to-the-block-count-under-the-mutex-that-guards-it", vImplGrowsMu >= 1 && vImplGrowMu >= commit.Chunk(len(c.commits)-1).Max())
 		}
 		vAssert("covers-the-capacity-option", vImplGrows >= 1 && int(vImplGrowMax) >= c.opts.Capacity)
 	}
@@ -3199,4 +3245,40 @@ func vLemmaRegistryStore(c *columns, e0, e1 columnEntry, name string, main, comp
 		vAssert("new-name:entry-appended-behind-the-existing-ones", len(now) == 3 && now[2].name == name && len(now[2].cols) == 2 && now[2].cols[0] == main && now[2].cols[1] == computed &&
 			now[0].name == e0.name && now[1].name == e1.name && len(now[0].cols) == len(old0) && len(now[1].cols) == len(old1))
 	}
+}
+
+// ---------------------------------------------------------------------------------------------
+// The one-operation wrappers of Collection (C02, C15, C19): Insert, InsertKey, UpsertKey, QueryKey, DeleteKey and
+// QueryAt run their operation in a transaction of its own that is ROLLED BACK - never committed: nothing is applied,
+// nothing is emitted, no trigger fires - exactly when the operation fails, and they return that failure; when it
+// succeeds the transaction is committed once. (DeleteAt reports through its result and always commits.)
+
+//@ lemma props=C02,C15,C19,C12 real=column.(*Txn).InsertKey
+func vLemmaCollectionWrappers(owner *Collection, sel uint8, key string, at uint32, fn func(Row) error) {
+	vAssume(owner != nil && owner.txns != nil && vNothingHeld() && sel <= 6 && fn != nil && errUnkeyedInsert != nil && errNoKey != nil)
+	vCol = owner
+	vDidCommit, vDidRollback = 0, 0
+	var err error
+	switch sel {
+	case 0:
+		_, err = owner.Insert(fn)
+	case 1:
+		err = owner.InsertKey(key, fn)
+	case 2:
+		err = owner.UpsertKey(key, fn)
+	case 3:
+		err = owner.QueryKey(key, fn)
+	case 4:
+		err = owner.DeleteKey(key)
+	case 5:
+		err = owner.QueryAt(at, fn)
+	default:
+		owner.DeleteAt(at)
+	}
+	if err != nil {
+		vAssert("failure-reported=>rolled-back-never-committed", vDidRollback == 1 && vDidCommit == 0)
+	} else {
+		vAssert("success-reported=>committed-once", vDidCommit == 1 && vDidRollback == 0)
+	}
+	vAssert("released", vNothingHeld())
 }
